@@ -1,6 +1,7 @@
 # per-property configuration of bin/check: correspondence streams, evidence rule text
 PROPS = {
     "C12": {
+        "gen": True,
         "streams": ["hdr-grid", "hdr-stat"],
         "rule": "hdr-grid: every v in -1..max+2 for a grid of small configurations (public API only), plus random "
                 "configurations up to 2^40 with values at bucket/sub-bucket boundaries +-1 (verif-tagged probe); "
@@ -9,7 +10,13 @@ PROPS = {
         "level_text": "Theorems (Props/C12.lean) for every valid configuration and every value: recording v <= highest succeeds in every "
                       "reachable state, v lies in its reported range, the range width is the unit or at most v*10^-sigfigs, total = number "
                       "accepted = sum of counts, rejection is a no-op. Proved over Nat from the literal bitLen cascade and sizing loop of the "
-                      "model; the model is tied to hdr.go by exhaustive small grids and boundary-biased large configurations on every run.",
+                      "model; the model is tied to hdr.go by exhaustive small grids and boundary-biased large configurations on every run. "
+                      "In addition the integer functions of hdr.go (bitLen, getBucketIndex, getSubBucketIdx, countsIndex, countsIndexFor, valueFromIndex, "
+                      "sizeOfEquivalentValueRange, lowest/next/highest/medianEquivalentValue, getCountAtIndex) are TRANSLATED from the Go source into Lean "
+                      "definitions on every run (harness/cmd/extract/translate.go -> Gen/Code.lean) and go_code_is_model proves the translated functions equal "
+                      "to the model's for every configuration New can establish and every value below 2^63; go_index_in_range, go_value_in_reported_range, "
+                      "go_range_width_bound restate the property's clauses about the translated Go functions themselves; go_bitLen_is_bit_length shows the "
+                      "translated loop never runs out of its fuel on an int64.",
         "level_note": "Proof is about the Lean model; trusted: Lean kernel, propext/Classical.choice/Quot.sound, the correspondence harness. "
                       "Preconditions: sigfigs 1..5, lowest < 2^40, highest < 2^62 (no int64 overflow; float steps of New exact). "
                       "The clause 'total = sum of Distribution() bar counts' is proved as total = sum of the counts array; the iterator walk "
@@ -195,6 +202,7 @@ PROPS = {
         "assumptions": ["time stamps at millisecond precision"],
     },
     "C13": {
+        "gen": True,
         "streams": ["hdr-stat"],
         "rule": "hdr-stat: random multisets (uniform, log-skewed, clustered at power-of-two boundaries, heavy duplicates, rejected values; n <= 60, thorough: up to 3000) on "
                 "configurations up to 2^21; 17 quantiles per multiset (fixed grid incl. 0.001, 100, >100 plus random), ranks computed by the library's own float expression; "
